@@ -454,6 +454,19 @@ func prepareFile(text string, withImport bool, spare int) (*bebop.File, []byte, 
 		return nil, []byte(main), err
 	}
 	f.FileName = filepath.Join(ws.dir, "main.bop")
+	if spare%2 == 1 {
+		// a nil Fields map is as good an input as an empty one
+		for i := range f.Messages {
+			if len(f.Messages[i].Fields) == 0 {
+				f.Messages[i].Fields = nil
+			}
+		}
+		for i := range f.Unions {
+			if len(f.Unions[i].Fields) == 0 {
+				f.Unions[i].Fields = nil
+			}
+		}
+	}
 	if spare > 0 {
 		st := make([]bebop.Struct, len(f.Structs), len(f.Structs)+spare)
 		copy(st, f.Structs)
